@@ -56,10 +56,21 @@ def full(spec):
     return (spec[0], spec[1], [full(k) for k in spec[2]])
 
 
-def gen_name(rng, used, plain=0.5):
+# words the DDS grammar itself uses (any letter case): as NAMES of variables, containers, dimensions, datasets
+KEYWORDS = ["Dataset", "Structure", "Sequence", "Grid", "Array", "Maps", "Array:", "Maps:", "Int32", "Byte", "Float64",
+            "String", "Url", "Int", "UInt", "Attributes", "grid", "STRUCTURE", "sequence", "dataset", "array", "MAPS"]
+
+
+def gen_name(rng, used, plain=0.5, anc=()):
+    """`anc`: names of the enclosing containers (a child named like its parent / grandparent is legal)"""
     for _ in range(50):
         n = rng.randint(1, 6)
-        if rng.random() < plain:
+        r = rng.random()
+        if anc and r < 0.06:
+            s = rng.choice(anc)
+        elif r < 0.12:
+            s = rng.choice(KEYWORDS)
+        elif rng.random() < plain:
             s = rng.choice("abcxyzABCXYZ_") + "".join(rng.choice(IDENT) for _ in range(n - 1))
         else:
             s = "".join(rng.choice(IDENT + QUOTE_NEEDED + QUOTE_NEEDED) for _ in range(n))
@@ -72,7 +83,12 @@ def gen_name(rng, used, plain=0.5):
     return s
 
 
+DIM_KEYWORDS = ["Maps", "Array", "Grid", "Int32", "maps", "Dataset", "Structure"]
+
+
 def gen_dim(rng):
+    if rng.random() < 0.04:
+        return rng.choice(DIM_KEYWORDS)
     n = rng.randint(1, 4)
     return "".join(rng.choice(IDENT + DIM_EXTRA) for _ in range(n))
 
@@ -87,10 +103,10 @@ def pick_nodata(rng, nd):
     return nd == "all" or (nd == "mixed" and rng.random() < 0.5)
 
 
-def gen_base(rng, used, depth_seq, mode, nd):
+def gen_base(rng, used, depth_seq, mode, nd, anc=()):
     """mode: 'domain' (the property's trees: dims absent or one per declared extent; sequence members of rank
     0..3), 'odd' (dims/shape length mismatch)"""
-    name = gen_name(rng, used)
+    name = gen_name(rng, used, anc=anc)
     ch = rng.choice(list(SPEC_TYPES))
     rank = rng.choice([0, 0, 1, 1, 2, 3])
     nodata = pick_nodata(rng, nd)
@@ -110,51 +126,148 @@ def gen_base(rng, used, depth_seq, mode, nd):
     return ("b", name, ch, shape, dims, nodata)
 
 
-def gen_grid(rng, used, depth_seq, mode, nd):
-    name = gen_name(rng, used)
-    inner = set()
-    rank = rng.randint(1, 3)
+def gen_grid(rng, used, depth_seq, mode, nd, anc=()):
+    """A Grid is an ordered container: the Array first, then the maps IN THE ORDER THE GRID HOLDS THEM.  Nothing
+    in pydap's model ties that order (or the maps' names) to the array's dimensions, so the generator does not
+    either: maps in dimension order, reversed, shuffled; maps that are no dimension of the array (before / between /
+    after those that are); dimensions without a map; repeated and anonymous dimension names; maps whose own
+    dimension is named differently; 0-d and 2-d maps; rank 0..4 arrays."""
+    name = gen_name(rng, used, anc=anc)
+    rank = rng.choice([0, 1, 1, 2, 2, 2, 3, 3, 4])
     ext = tuple(gen_extent(rng) for _ in range(rank))
+    r = rng.random()
+    style = "anonymous" if r < 0.15 else "repeated" if r < 0.30 and rank >= 2 else "named"
     dnames = []
-    while len(dnames) < rank:
-        d = gen_dim(rng)          # dimension names are printed verbatim (not quoted): keep them parseable
-        if d not in inner:
-            inner.add(d)
-            dnames.append(d)
+    if style != "anonymous":
+        while len(dnames) < rank:
+            d = gen_dim(rng)          # dimension names are printed verbatim (not quoted): keep them parseable
+            if d not in dnames:
+                dnames.append(d)
+        if style == "repeated":
+            i, j = rng.sample(range(rank), 2)
+            dnames[j] = dnames[i]
+    # candidate maps: one per distinct axis name (fresh names for anonymous axes), with that axis' extent
+    axes = []
+    for i in range(rank):
+        dn = dnames[i] if dnames else gen_dim(rng)
+        if dn not in [a for a, _ in axes]:
+            axes.append((dn, ext[i]))
+    r = rng.random()
+    if r < 0.25:
+        pass
+    elif r < 0.40:
+        axes.reverse()
+    else:
+        rng.shuffle(axes)
+    if axes and rng.random() < 0.15:
+        del axes[rng.randrange(len(axes))]          # a dimension without a map
+    if rng.random() < 0.10:
+        axes = [(a + rng.choice("_xZ9"), e) for a, e in axes]     # maps named differently from the dimensions
+    inner = set(a for a, _ in axes)
+    if rng.random() < 0.30:                         # maps that are not a dimension of the array, anywhere
+        for _ in range(rng.randint(1, 2)):
+            pos = 0 if rng.random() < 0.5 else rng.randint(0, len(axes))
+            axes.insert(pos, (gen_name(rng, inner, anc=anc + (name,)), gen_extent(rng)))
+
     def lead(nodata):          # record axes of a grid inside sequences, present only in data
         return () if nodata else tuple(gen_extent(rng) for _ in range(depth_seq))
 
     na = pick_nodata(rng, nd)
-    arr = ("b", gen_name(rng, inner), rng.choice(list(SPEC_TYPES)), lead(na) + ext, tuple(dnames), na)
+    arr = ("b", gen_name(rng, inner, anc=anc + (name,)), rng.choice(list(SPEC_TYPES)), lead(na) + ext, tuple(dnames), na)
     maps = []
-    for dn, e in zip(dnames, ext):
+    for dn, e in axes:
         nm = pick_nodata(rng, nd)
-        maps.append(("b", dn, rng.choice(list(SPEC_TYPES)), lead(nm) + (e,), (dn,) if rng.random() < 0.7 else (), nm))
+        r = rng.random()
+        if r < 0.85:
+            r2 = rng.random()
+            mshape, mdims = (e,), ((dn,) if r2 < 0.6 and DIM_RE_OK(dn) else () if r2 < 0.85 else (gen_dim(rng),))
+        elif r < 0.95:                               # two-dimensional map (curvilinear coordinates)
+            mshape = (e, gen_extent(rng))
+            mdims = (gen_dim(rng), gen_dim(rng)) if rng.random() < 0.6 else ()
+        else:
+            mshape, mdims = (), ()
+        maps.append(("b", dn, rng.choice(list(SPEC_TYPES)), lead(nm) + mshape, mdims, nm))
     return ("g", name, [arr] + maps)
 
 
-def gen_kids(rng, depth, depth_seq, mode, maxkids, nd):
+def grid_features(spec, depth_seq=0, out=None):
+    """measured distribution of the Grids of a tree (features, not cases)"""
+    out = set() if out is None else out
+    if spec[0] == "g":
+        arr, maps = spec[2][0], spec[2][1:]
+        dims = list(arr[4])
+        pos = [dims.index(m[1]) if m[1] in dims else len(dims) for m in maps]
+        out.add("grid")
+        if not maps:
+            out.add("grid:no-maps")
+        if not dims:
+            out.add("grid:anonymous-dims")
+        if len(set(dims)) < len(dims):
+            out.add("grid:repeated-dims")
+        if pos != sorted(pos):
+            out.add("grid:maps-not-in-dimension-order")
+        if any(p == len(dims) and any(q < p for q in pos[i + 1:]) for i, p in enumerate(pos)):
+            out.add("grid:non-dimension-map-before-dimension-map")
+        if dims and any(p == len(dims) for p in pos):
+            out.add("grid:map-not-a-dimension")
+        if any(d not in [m[1] for m in maps] for d in dims):
+            out.add("grid:dimension-without-map")
+        if any(len(m[4]) == 1 and m[4][0] != m[1] for m in maps):
+            out.add("grid:map-dimension-named-differently")
+        if any(declared_rank(m, depth_seq) != 1 for m in maps):
+            out.add("grid:map-rank-not-1")
+        if any(e == 0 for b in spec[2] for e in b[3]):
+            out.add("grid:zero-extent")
+    elif spec[0] != "b":
+        for k in spec[2]:
+            grid_features(k, depth_seq + (1 if spec[0] == "sq" else 0), out)
+    return out
+
+
+def tree_features(spec, anc=(), out=None):
+    out = set() if out is None else out
+    low = spec[1].lower()
+    if low.rstrip(":") in ("dataset", "structure", "sequence", "grid", "array", "maps", "int32", "byte", "float64",
+                           "string", "url", "int", "uint", "attributes"):
+        out.add("name:keyword")
+    if spec[1] in anc:
+        out.add("name:same-as-ancestor")
+    if spec[0] == "b":
+        if any(d.lower() in ("maps", "array", "grid", "int32", "dataset", "structure") for d in spec[4]):
+            out.add("dimension:keyword")
+        if 0 in spec[3]:
+            out.add("zero-extent")
+    else:
+        if not spec[2]:
+            out.add("empty:" + spec[0])
+        for k in spec[2]:
+            tree_features(k, anc + (spec[1],), out)
+    return out
+
+
+def gen_kids(rng, depth, depth_seq, mode, maxkids, nd, anc=()):
     used = set()
     kids = []
-    for _ in range(rng.randint(0 if depth > 1 and rng.random() < 0.1 else 1, maxkids)):
+    for _ in range(rng.randint(0 if rng.random() < (0.1 if depth > 1 else 0.02) else 1, maxkids)):
         r = rng.random()
         if depth >= 4 or r < 0.5:
-            kids.append(gen_base(rng, used, depth_seq, mode, nd))
-        elif r < 0.65:
-            kids.append(gen_grid(rng, used, depth_seq, mode, nd))
-        elif r < 0.85:
-            kids.append(("st", gen_name(rng, used), gen_kids(rng, depth + 1, depth_seq, mode, max(1, maxkids - 1),
-                                                               nd)))
+            kids.append(gen_base(rng, used, depth_seq, mode, nd, anc))
+        elif r < 0.68:
+            kids.append(gen_grid(rng, used, depth_seq, mode, nd, anc))
+        elif r < 0.86:
+            n = gen_name(rng, used, anc=anc)
+            kids.append(("st", n, gen_kids(rng, depth + 1, depth_seq, mode, max(1, maxkids - 1), nd, anc + (n,))))
         else:
-            kids.append(("sq", gen_name(rng, used), gen_kids(rng, depth + 1, depth_seq + 1, mode,
-                                                               max(1, maxkids - 1), nd)))
+            n = gen_name(rng, used, anc=anc)
+            kids.append(("sq", n, gen_kids(rng, depth + 1, depth_seq + 1, mode, max(1, maxkids - 1), nd, anc + (n,))))
     return kids
 
 
 def gen_dataset(rng, mode):
     r = rng.random()
     nd = "all" if r < 0.25 else "mixed" if r < 0.40 else "held"
-    return ("ds", gen_name(rng, set()), gen_kids(rng, 1, 0, mode, rng.choice([1, 2, 3, 5]), nd))
+    n = gen_name(rng, set())
+    return ("ds", n, gen_kids(rng, 1, 0, mode, rng.choice([1, 2, 3, 5]), nd, (n,)))
 
 
 def build(P, spec):
@@ -563,6 +676,8 @@ def check_tree(ctx, P, spec, cases, where, live=None):
     ctx.count(("tree", src), True, tag=where + (":domain" if dom else ":odd")
               + ("+array-in-sequence" if in_seq_array_class(spec) else "") + ("+nodata" if has_nodata(spec) else ""),
               sample={"spec": repr(spec)[:300], "text": text[:300]})
+    for f in sorted(grid_features(spec) | tree_features(spec)):
+        ctx.tags["feature:" + f] += 1
     if d2 is None:
         ctx.oracle_fail("printed DDS does not parse", case, dump2, "a dataset", size=len(text))
         return
